@@ -150,6 +150,7 @@ class Gen:
             except Exception:
                 self.prods[n] = ("tag", "")
         self.r = rng
+        self.soft, self.hard = (24, 48) if name == "xpath" else (9, 16)
         self.words = sorted({w for _, t in snap["prods"] for w in self._literals(t) if w.isalpha() and len(w) >= 2})
 
     @staticmethod
@@ -163,6 +164,8 @@ class Gen:
         r = self.r
         pl = pool(p)
         n = r.choice([0, 1, 1, 2, 3, 5]) if lo == 0 else r.choice([1, 1, 2, 3, 5])
+        if p == ("p", "P.isSpace"):
+            n = r.choice([0, 0, 0, 1, 1, 2]) if lo == 0 else r.choice([1, 1, 2])
         s = "".join(r.choice(pl) for _ in range(n))
         if self.words and r.random() < 0.2:
             w = r.choice(self.words)
@@ -171,6 +174,7 @@ class Gen:
         return s
 
     def gen(self, g, depth=0):
+        """depth counts nested productions (the precedence chain of an expression grammar alone is a dozen deep)"""
         r = self.r
         k = g[0]
         if k == "tag":
@@ -183,19 +187,23 @@ class Gen:
             s = self.cls(0, g[1])
             return s.replace(g[2], g[2][:-1]) if g[2] else s
         if k == "seq":
-            return "".join(self.gen(x, depth + 1) for x in g[1])
+            return "".join(self.gen(x, depth) for x in g[1])
         if k == "alt":
             alts = g[1]
             if not alts:
                 return ""
-            if depth > 14:
-                return self.gen(min(alts, key=lambda a: len(repr(a))), depth + 1)
-            return self.gen(r.choice(alts), depth + 1)
+            if depth > self.soft or r.random() < depth / (2.0 * self.soft):
+                return self.gen(min(alts, key=lambda a: len(repr(a))), depth)
+            return self.gen(r.choice(alts), depth)
         if k == "many":
-            n = 0 if depth > 14 else r.choice([0, 0, 1, 1, 2, 3])
-            return "".join(self.gen(g[1], depth + 1) for _ in range(n))
+            # repetitions get rarer with depth, so that a derivation stays a few dozen characters long
+            if depth > self.soft or r.random() < min(0.9, 0.55 + 0.02 * depth):
+                n = 0
+            else:
+                n = r.choice([1, 1, 2])
+            return "".join(self.gen(g[1], depth) for _ in range(n))
         if k == "verify":
-            s = self.gen(g[1], depth + 1)
+            s = self.gen(g[1], depth)
             # `tagNamesMatch`: make the end tag repeat the start tag's name most of the time
             m = re.match(r"<([^\s/>]+)", s)
             m2 = re.search(r"</([^\s>]*)\s*>$", s)
@@ -203,7 +211,7 @@ class Gen:
                 s = s[:m2.start(1)] + m.group(1) + s[m2.end(1):]
             return s
         if k == "nt":
-            if depth > 22:
+            if depth > self.hard:
                 return ""
             return self.gen(self.prods.get(g[1]) or self.prods.get(g[1].rstrip("_")) or ("tag", ""), depth + 1)
         return ""
